@@ -54,8 +54,10 @@ META = {
                   "applyPatches_restores, monkey_restores, patchState_empty_after, lookup_restored, x64_restored; "
                   "regression theorems about the pre-fix machine (old_capture_leaks, old_entry_fault_leaks).",
     "level_note": "Only hypothesis left: reference counts of a pre-existing _PATCH_STATE are >= 1 (a code invariant; "
-                  "vacuous from the empty table). jit/pjit trace caches, threads and ContextVars are not modelled: "
-                  "covered by behavioural probes only. Trusted: Lean kernel + 3 axioms; the hand-written model "
+                  "vacuous from the empty table). jit/pjit trace caches, threads and ContextVars are OUTSIDE the "
+                  "Lean model: covered by behavioural probes only (warm jitted probes and jitted functions whose "
+                  "first trace happens inside a conversion, called after every conversion) — which find the known "
+                  "defect F-C13-jit-cache-pollution on the current tree. Trusted: Lean kernel + 3 axioms; the hand-written model "
                   "(validated by the sandbox correspondence each run); unwinding setattr/delattr assumed not to "
                   "raise; Python's getattr = MRO lookup + descriptor protocol; targets have a __dict__.",
     "design_ref": "DESIGN.md §3 C13",
@@ -578,7 +580,31 @@ def _define_programs() -> dict:
     def jitted(x):
         return jnp.sin(x) @ jnp.ones((3, 2), x.dtype)
 
+    # jitted user functions that are NEVER called before the first conversion that uses them: their first
+    # trace happens inside to_onnx, while the plugin world is active (jit/pjit staging caches are runtime
+    # state outside the Lean model — this is the behavioural probe for it)
+    w32 = np.ones((3, 2), np.float32)
+    cold_tanh = jax.jit(lambda a: jnp.tanh(a) * 2.0 + 1.0)
+    cold_dot = jax.jit(lambda a: jnp.dot(a, w32) - 0.5)
+    cold_arith = jax.jit(lambda a: a * 2.0 + 1.0)
+    cold_exp = jax.jit(lambda a: jnp.exp(a) * 0.5)
+
+    def c13_fn_uses_cold(x):
+        return cold_exp(x) + 1.0
+
+    mod.c13_fn_uses_cold = onnx_function(c13_fn_uses_cold)
+    _DEFS["cold"] = {
+        "cold_tanh": (cold_tanh, lambda a: np.tanh(a) * 2.0 + 1.0, True, "uses_cold_tanh"),
+        "cold_dot": (cold_dot, lambda a: a @ w32 - 0.5, True, "uses_cold_dot"),
+        "cold_arith": (cold_arith, lambda a: a * 2.0 + 1.0, False, "uses_cold_arith"),
+        "cold_exp": (cold_exp, lambda a: np.exp(a) * 0.5, True, "fn_uses_cold"),
+    }
+
     _DEFS.update({
+        "uses_cold_tanh": lambda x: cold_tanh(x) + 1.0,
+        "uses_cold_dot": lambda x: cold_dot(x) * 2.0,
+        "uses_cold_arith": lambda x: cold_arith(x) - 1.0,
+        "fn_uses_cold": lambda x: mod.c13_fn_uses_cold(x) * 2.0,
         "simple": lambda x: jnp.sin(x) + 1.0,
         "matmul": lambda x: x @ jnp.ones((3, 3), x.dtype),
         "nested_fn": lambda x: mod.c13_outer(x) - 1.0,
@@ -604,6 +630,11 @@ def history(rng: common.Rng, thorough: bool) -> list[dict]:
         {"prog": "jitted", "x64": False},
         {"prog": "nnx_linear", "x64": False},
         {"prog": "nested_fn", "x64": True},
+        # jitted user functions whose FIRST trace happens inside the conversion
+        {"prog": "uses_cold_tanh", "x64": False},
+        {"prog": "uses_cold_dot", "x64": False},
+        {"prog": "uses_cold_arith", "x64": False},
+        {"prog": "fn_uses_cold", "x64": False},
         # failures in the EMIT stage (after tracing and lowering succeeded) x precision flag
         {"prog": "simple", "x64": True, "emit": "names"},
         {"prog": "matmul", "x64": True, "emit": "dir"},
@@ -653,6 +684,25 @@ def convert_step(st: dict, d: dict) -> tuple[bool, str]:
     finally:
         if tmp:
             shutil.rmtree(tmp, ignore_errors=True)
+
+
+def cold_jit_probe(exported: set) -> list[dict]:
+    """Call, eagerly, every jitted function whose first trace happened inside a conversion so far.
+    Returns one record per function that no longer evaluates (or evaluates differently)."""
+    d = _define_programs()
+    x = (np.arange(6, dtype=np.float32).reshape(2, 3) / 4 - 0.5)
+    bad = []
+    for name, (fn, ref, patched_call, prog) in d["cold"].items():
+        if prog not in exported:
+            continue
+        try:
+            y = np.asarray(fn(x))
+            if not np.allclose(y, ref(x), rtol=1e-5, atol=1e-6):
+                bad.append({"probe": name, "patched_library_call": patched_call, "what": "different result"})
+        except Exception as e:
+            bad.append({"probe": name, "patched_library_call": patched_call,
+                        "what": f"{type(e).__name__}: {str(e).splitlines()[0][:110]}"})
+    return bad
 
 
 def probes() -> dict:
@@ -705,6 +755,7 @@ def run_history(chk: Check, rng: common.Rng, thorough: bool) -> None:
         leaves = jax.tree_util.tree_leaves(nnx.state(nnx_model))
         return [np.asarray(l).tobytes() for l in leaves], sorted(vars(nnx_model).keys())
 
+    exported: set = set()
     p0 = probes()        # warm the jit caches BEFORE the first snapshot: jitted probe is called, exported, called again
     first = Snapshot()
     prev = first
@@ -720,6 +771,16 @@ def run_history(chk: Check, rng: common.Rng, thorough: bool) -> None:
             ok, err = convert_step(st, d)
             stat["steps"] += 1
             stat["succeeded" if ok else "failed"] += 1
+            if not st["x64"] and not st.get("host_x64"):
+                exported.add(st["prog"])
+            for rec_ in cold_jit_probe(exported):
+                stat["jit_cache_pollution"] = stat.get("jit_cache_pollution", 0) + 1
+                chk.finding({"kind": "jit_cache_pollution", "first_traced": "inside_to_onnx",
+                             "patched_library_call": rec_["patched_library_call"], "probe": rec_["probe"]},
+                            f"eager call of the jitted function {rec_['probe']} (never called before the export "
+                            f"that traced it) fails after to_onnx: {rec_['what']}",
+                            {"history": steps[: i + 1], "probe": rec_["probe"], "what": rec_["what"],
+                             "how": "harness/props/c13.py::replay; standalone: notes/C13-jit-cache-repro.py"})
             cur = Snapshot()
             df = prev.diff(cur)
             case = {"step": i, "call": st, "converted": ok, "resolution_changed": [list(k) for k in df["resolution_changed"]][:6],
@@ -915,6 +976,8 @@ def replay(path: str) -> int:
         d = _define_programs()
         before = Snapshot()
         flag_leaks = 0
+        exported: set = set()
+        polluted = 0
         for st in rep["history"]:
             if st["prog"] not in d:
                 continue
@@ -927,8 +990,13 @@ def replay(path: str) -> int:
             if bool(jax.config.jax_enable_x64) != flag0:
                 flag_leaks += 1
             jax.config.update("jax_enable_x64", False)
+            if not st["x64"] and not st.get("host_x64"):
+                exported.add(st["prog"])
+            for rec_ in cold_jit_probe(exported):
+                polluted += 1
+                print("     jit cache pollution:", rec_)
         df = before.diff(Snapshot())
         print(json.dumps({k: ([list(x) for x in v][:20] if isinstance(v, list) else v) for k, v in df.items()},
                          indent=1, default=str))
-        return 1 if df["resolution_changed"] or flag_leaks else 0
+        return 1 if df["resolution_changed"] or flag_leaks or polluted else 0
     return 0
